@@ -349,6 +349,316 @@ def elk_stream(ctx, m, cases):
                mismatches=mism, failing_keys=sorted(seen))
 
 
+# ---------------------------------------------------------------- c20.iter / c20.iterelk: iterator PROTOCOL histories
+# A case is a string and a history of operations on a pool of iterator objects over it (create
+# char/byte/grapheme iterator, next, reset, copy, `for`). Model: Model/C20_Iter.v (C20_iter_history).
+
+KIND = {"c": "char", "b": "byte", "g": "grapheme"}
+
+
+def parse_iter_input(inp):
+    base = inp.split("|")[0]
+    kv = dict(f.split("=", 1) for f in base.split() if "=" in f)
+    return bytes.fromhex(kv.get("s", "")), [x for x in kv.get("h", "").split(",") if x]
+
+
+def parse_iter_obs(obs):
+    return dict(f.split("=", 1) for f in obs.split("|") if "=" in f)
+
+
+def iter_lineage(h):
+    """per op: (target index or None, kind, flags of the target BEFORE the op) where flags =
+    (was reset, is/descends from a copy); ill-formed indices give kind None"""
+    pool = []      # [kind, reset?, copy?]
+    out = []
+    for op in h:
+        if op in KIND:
+            out.append((len(pool), KIND[op], (False, False)))
+            pool.append([KIND[op], False, False])
+            continue
+        i = int(op[1:])
+        if i >= len(pool):
+            out.append((None, None, (False, False)))
+            continue
+        k, rs, cp = pool[i]
+        out.append((i, k, (rs, cp)))
+        if op[0] == "r":
+            pool[i][1] = True
+        elif op[0] == "y":
+            pool.append([k, rs, True])
+    return out
+
+
+def iter_key(h, j):
+    """canonical class of a failing operation j of history h"""
+    i, k, (rs, cp) = iter_lineage(h)[j]
+    if k is None:
+        return "iter:no-such-iterator"
+    opn = {"n": "next", "d": "for", "r": "reset", "y": "copy"}.get(h[j][0], "new")
+    return "iter:%s:%s%s:%s" % (k, "after-reset" if rs else "fresh", ":copy" if cp else "", opn)
+
+
+def iter_reference(h, lists):
+    """the property evaluated on the implementation's OWN *_at lists and counts: an iterator is a
+    position in the list of its kind; returns the expected per-op outputs"""
+    pool = []      # [kind, pos]
+    out = []
+    for op in h:
+        if op in KIND:
+            pool.append([KIND[op], 0])
+            out.append("-")
+            continue
+        i = int(op[1:])
+        if i >= len(pool):
+            out.append("bad")
+            continue
+        k, p = pool[i]
+        L = lists[k]
+        if op[0] == "n":
+            if p < len(L):
+                out.append(L[p])
+                pool[i][1] = p + 1
+            else:
+                out.append("stop")
+        elif op[0] == "r":
+            pool[i][1] = 0
+            out.append("-")
+        elif op[0] == "y":
+            pool.append([k, p])
+            out.append("-")
+        elif op[0] == "d":
+            out.append(",".join(L[p:] + ["stop"]))
+            pool[i][1] = len(L)
+    return out
+
+
+def first_diff(a, b):
+    for j in range(max(len(a), len(b))):
+        if j >= len(a) or j >= len(b) or a[j] != b[j]:
+            return j
+    return None
+
+
+ITER_RULE = ("(s, history): s STARTS (7/8) with a cluster whose end depends on the class of its first code point - CR LF, 1-4 regional "
+             "indicators, emoji ZWJ / modifier / tag sequences, decomposed Hangul jamo L+V(+T), Prepend, leading Extend/ZWJ/VS, keycap, "
+             "SpacingMark, invalid bytes before such a rule - followed by 0-3 pieces of the c20.ops grammar; history over a pool of "
+             "iterator objects (value.NewString{Char,Byte,Grapheme}Iterator, half of them grapheme): create, NextValue, Reset, Copy, "
+             "for (NextValue until :stop_iteration) - templates (partially consumed then reset; exhausted then reset, by for and by next "
+             "past the end; reset of a fresh iterator, twice; two iterators interleaved with resets; copy mid-way then original/copy "
+             "reset) and random walks incl. indices of iterators that do not exist; every op's output compared with the extracted "
+             "pool machine (C20_iter_history) and with positions in the implementation's own char_at/byte_at/grapheme_at lists and "
+             "counts; non-trivial = history contains a reset or copy and s is not ASCII; distinct by (s, history)")
+
+
+def iter_stream(ctx, h, m):
+    stream = "c20.iter"
+    corpus = os.path.join(vlib.ROOT, "corpus", "C20.iter.txt")
+    cmd = [h, "-extra", "iter", "-seed", str(ctx.sseed(stream)), "-n", str(ctx.n(6000, 400000)), "-tier", ctx.tier]
+    if os.path.exists(corpus):
+        cmd += ["-input", corpus]
+    rc, out = vlib.sh(cmd, timeout=3000, env=vlib.elk_env())
+    ids, inputs, obs = vlib.parse_case_lines(out)
+    if rc != 0 or not ids:
+        ctx.broke("correspondence %s: harness exited %d" % (stream, rc), out[-3000:])
+        if not ids:
+            return []
+    rc2, exp, mout = vlib.run_model(m, ids, inputs, timeout=3000)
+    if rc2 != 0:
+        ctx.broke("correspondence %s: model driver exited %d" % (stream, rc2), mout[-3000:])
+    fails, distinct, dist, mism, nops = [], set(), {}, 0, 0
+    cases = []
+    for i in ids:
+        inp = inputs[i]
+        base = inp.split("|")[0].strip()
+        s, hist = parse_iter_input(inp)
+        o = parse_iter_obs(obs[i])
+        e = exp.get(i)
+        size = len(s) + len(hist)
+        nops += len(hist)
+        lin = iter_lineage(hist)
+        for (_, k, _), op in zip(lin, hist):
+            if k is not None and op[0] in "nd":
+                dist[k] = dist.get(k, 0) + 1
+        if any(op[0] in "ry" for op in hist) and str_class(s) != "ascii":
+            distinct.add(hash(base))
+        if e is None or e.startswith("driver-error"):
+            ctx.broke("correspondence %s: model gave no answer for %s (%s)" % (stream, base[:200], e))
+            continue
+        em = parse_iter_obs(e)
+        cases.append((inp, em))
+        io, mo = o.get("out", "").split(";"), em.get("out", "").split(";")
+        j = first_diff(io, mo)
+        if j is not None and hist:
+            j = min(j, len(hist) - 1)
+            mism += 1
+            fails.append((size, iter_key(hist, j), "op %d (%s) of %s: implementation yields %s, model %s" % (j, hist[j], base, ";".join(io[j:j + 1])[:120], ";".join(mo[j:j + 1])[:120]),
+                          base, "out=" + o.get("out", "")[:400], "out=" + em.get("out", "")[:400], "implementation differs from the proved model"))
+        for f in ("len", "blen", "glen", "cats", "bats", "gats"):
+            if o.get(f) != em.get(f):
+                mism += 1
+                fails.append((size, "iter:" + f + ":" + str_class(s), "%s of %s: implementation %s, model %s" % (f, base, str(o.get(f))[:120], str(em.get(f))[:120]),
+                              base, f + "=" + str(o.get(f))[:300], f + "=" + str(em.get(f))[:300], "implementation differs from the proved model"))
+        # oracle 2: positions in the implementation's own *_at lists / counts
+        try:
+            lists = {"char": [x for x in o["cats"].split(",") if x], "byte": [x for x in o["bats"].split(",") if x],
+                     "grapheme": [x for x in o["gats"].split(",") if x]}
+            cnt_ok = (len(lists["char"]) == int(o["len"]) and len(lists["byte"]) == int(o["blen"]) and len(lists["grapheme"]) == int(o["glen"]))
+            ref = iter_reference(hist, lists)
+        except (KeyError, ValueError) as ex:
+            mism += 1
+            fails.append((size, "iter:malformed", "cannot evaluate the property on %s: %r" % (obs[i][:200], ex), base, obs[i][:300], None, "malformed observable"))
+            continue
+        if not cnt_ok:
+            mism += 1
+            fails.append((size, "iter:counts:" + str_class(s), "*_at lists of %s do not have *_count elements" % base, base, obs[i][:300], None,
+                          "length/byte_count/grapheme_count equal the number of elements"))
+        j = first_diff(io, ref)
+        if j is not None and hist:
+            j = min(j, len(hist) - 1)
+            mism += 1
+            fails.append((size, iter_key(hist, j), "op %d (%s) of %s yields %s but the elements from the iterator's position per char_at/byte_at/grapheme_at are %s"
+                          % (j, hist[j], base, ";".join(io[j:j + 1])[:120], ";".join(ref[j:j + 1])[:120]),
+                          base, "out=" + o.get("out", "")[:400], None,
+                          "after any history of next/reset/copy an iterator yields the elements *_at gives from its position on, *_count in total after a reset"))
+    fails.sort(key=lambda x: (x[0], x[1]))
+    seen = {}
+    for sz, key, what, case, impl, model, oracle in fails:
+        seen[key] = seen.get(key, 0) + 1
+        if seen[key] <= 2:
+            ctx.fail(key, what, stream=stream, case=case, impl=impl, model=model, oracle=oracle)
+    ctx.stream(stream, len(ids), len(distinct), ITER_RULE,
+               [{"input": inputs[i][:400], "observed": obs[i][:400]} for i in ids[:2] + ids[-2:]], dist,
+               mismatches=mism, operations=nops, failing_keys=sorted(seen))
+    return cases
+
+
+ITER_PRELUDE = """def showb(r: String)
+  for b in r.byte_iter
+    print(b.inspect)
+    print(",")
+  end
+end
+"""
+
+
+def iter_elk_case(tag, s, hist):
+    """Elk statements performing the history; every next/for prints one line '@tag:j=...'"""
+    L = ["var %s_s = %s" % (tag, elk_str(s))]
+    pool = []
+    for j, op in enumerate(hist):
+        if op in KIND:
+            v = "%s_%d" % (tag, len(pool))
+            meth = {"c": "iter", "b": "byte_iter", "g": "grapheme_iter"}[op]
+            if op == "c" and j % 2:
+                meth = "char_iter"
+            L.append("var %s = %s_s.%s" % (v, tag, meth))
+            pool.append(KIND[op])
+            continue
+        i = int(op[1:])
+        v, k = "%s_%d" % (tag, i), pool[i]
+        one = {"char": "showb(%s.to_string)", "byte": "print(%s.inspect)", "grapheme": "showb(%s)"}[k]
+        if op[0] == "r":
+            L.append("%s.reset" % v)
+        elif op[0] == "n":
+            L += ['print("@%s:%d=")' % (tag, j), "do", "  " + one % (v + ".next"), '  println("/")', "catch :stop_iteration", '  println("stop")', "end"]
+        elif op[0] == "d":
+            L += ['print("@%s:%d=")' % (tag, j), "for x in %s" % v, "  " + one % "x", '  print("/")', "end", 'println("stop")']
+    return L
+
+
+def iter_elk_expected(tag, hist, out):
+    def bl(b):
+        return "".join("%du8," % x for x in b)
+    lin = iter_lineage(hist)
+    exp = {}
+    for j, (op, o) in enumerate(zip(hist, out)):
+        if op[0] not in "nd":
+            continue
+        k = lin[j][1]
+        parts = []
+        for el in o.split(","):
+            if el == "stop":
+                parts.append("stop")
+            elif k == "char":
+                parts.append(bl(enc(int(el))) + "/")
+            elif k == "byte":
+                parts.append(el + "u8/")
+            else:
+                parts.append(bl(bytes.fromhex(el)) + "/")
+        exp["@%s:%d" % (tag, j)] = "".join(parts)
+    return exp
+
+
+def iter_elk_stream(ctx, cases):
+    """the same histories (without Copy, which Elk does not expose, and without ill-formed indices)
+    as Elk programs: s.iter/char_iter/byte_iter/grapheme_iter, it.next in do/catch :stop_iteration,
+    it.reset, `for x in it`; four histories per program"""
+    stream = "c20.iterelk"
+    want = ctx.n(64, 1200)
+    per = 4
+    sel = []
+    for inp, em in cases:
+        s, hist = parse_iter_input(inp)
+        if not hist or any(op[0] == "y" for op in hist) or any(k is None for (_, k, _) in iter_lineage(hist)):
+            continue
+        if not any(op[0] == "r" for op in hist):
+            continue
+        sel.append((inp.split("|")[0].strip(), s, hist, em.get("out", "").split(";")))
+        if len(sel) >= want:
+            break
+    elk = vlib.build_elk()
+    progs, meta = [], {}
+    for g in range(0, len(sel), per):
+        pid = "c20it_%d" % (g // per)
+        L = [ITER_PRELUDE]
+        exp = {}
+        for n, (base, s, hist, out) in enumerate(sel[g:g + per]):
+            tag = "k%d" % n
+            L += iter_elk_case(tag, s, hist)
+            for k, v in iter_elk_expected(tag, hist, out).items():
+                exp[k] = (v, base, hist)
+        progs.append((pid, "\n".join(L) + "\n"))
+        meta[pid] = exp
+    res = vlib.run_programs(elk, progs, os.path.join(ctx.workdir, "elkiter"), timeout=60)
+    rerun = [p for p in progs if res[p[0]][2] != "ok"]
+    if rerun:   # crashes/timeouts under machine load: once more, alone
+        res.update(vlib.run_programs(elk, rerun, os.path.join(ctx.workdir, "elkiter"), workers=2, timeout=120))
+    fails, dist, mism, evals, distinct = [], {}, 0, 0, set()
+    for pid, (rc, out, cls) in res.items():
+        exp = meta[pid]
+        dist[cls] = dist.get(cls, 0) + 1
+        if cls != "ok":
+            mism += 1
+            fails.append((0, "iterelk:%s" % cls, "iterator program %s ended with %s: %s" % (pid, cls, out[-300:].replace("\n", " | ")),
+                          "; ".join(sorted(set(b for (_, b, _) in exp.values())))[:600], out[-600:], None, "the Elk program must run to completion"))
+            continue
+        got = {}
+        for line in out.splitlines():
+            if line.startswith("@") and "=" in line:
+                k, v = line.split("=", 1)
+                got[k] = v
+        for k, (v, base, hist) in sorted(exp.items()):
+            evals += 1
+            distinct.add(base)
+            if got.get(k) != v:
+                j = int(k.split(":")[1])
+                mism += 1
+                fails.append((len(base), "elk:" + iter_key(hist, j), "op %d (%s) of %s via Elk: printed %s, model %s" % (j, hist[j], base, str(got.get(k))[:120], v[:120]),
+                              base, k + "=" + str(got.get(k))[:300], k + "=" + v[:300], "Elk program output differs from the proved model"))
+    fails.sort(key=lambda x: (x[0], x[1]))
+    seen = {}
+    for sz, key, what, case, impl, model, oracle in fails:
+        seen[key] = seen.get(key, 0) + 1
+        if seen[key] <= 2:
+            ctx.fail(key, what, stream=stream, case=case, impl=impl, model=model, oracle=oracle)
+    ctx.stream(stream, evals, len(distinct),
+               "histories of c20.iter (corpus first) that contain a reset and no Copy / ill-formed index, four per Elk program: "
+               "s.iter / char_iter / byte_iter / grapheme_iter, it.next inside do/catch :stop_iteration, it.reset, `for x in it`; every "
+               "next / for output printed byte-exactly and compared with the model's; evaluations = printed outputs; distinct by (s, history)",
+               [{"input": meta_k, "observed": res[p][1][:300]} for p in sorted(res)[:2] for meta_k in [";".join(sorted(set(b for (_, b, _) in meta[p].values())))[:300]]],
+               dist, mismatches=mism, programs=len(progs), failing_keys=sorted(seen))
+
+
 RULE = ("bundles (s,t,u,indices,width,char,count): s from a grammar of ASCII, 2-4 byte runes, combining marks, ZWJ "
         "sequences, regional indicators, Hangul jamo, overlong/surrogate/out-of-range/truncated/stray bytes, random bytes; "
         "t,u related to s (byte/char suffix, prefix, one byte flipped, equal) or fresh; indices in [-n-2,n+2] per unit "
@@ -365,7 +675,16 @@ def run(ctx):
         "value.String behaves like the model (stream c20.ops, every field of every bundle compared; stream c20.elk, the same methods "
         "called from real Elk programs through the VM), and that uniseg / "
         "unicode.ToUpper/ToLower - which enter the model as oracles instantiated per case from the live packages - satisfy the "
-        "assumed laws (checked per case: clusters non-empty and concatenating to s).")
+        "assumed laws (checked per case: clusters non-empty and concatenating to s). "
+        "Iterator PROTOCOL (Model/C20_Iter.v): the three iterator objects are modelled as the Go structs' state machines (ByteOffset; "
+        "(Rest, State) with uniseg.FirstGraphemeClusterInString as a step oracle gstep and the initial sentinel State = -1), the clusters "
+        "are DEFINED as the steps from (s, -1) (as GraphemeClusterCount / GraphemeAtInt compute them), and C20_iter_history proves, for "
+        "every step oracle with the progress law and EVERY history of create/next/reset/copy/for operations on a pool of iterators in "
+        "any interleaving, that each operation yields what a position in the char/byte/cluster list yields (reset = position 0; "
+        "C20_iter_reiterate: reset + for yields the whole list, *_count elements). Tied to the code by stream c20.iter (histories on the "
+        "Go API incl. Copy, strings that START with state-dependent clusters; model comparison plus positions in the implementation's own "
+        "*_at lists) and c20.iterelk (the same histories as Elk programs: iter/char_iter/byte_iter/grapheme_iter, next, reset, for). "
+        "Elk exposes no copy of an iterator, so Copy is exercised through the Go API only.")
     ctx.trusted_base += [
         "Go unicode/utf8 (DecodeRuneInString, RuneCountInString, EncodeRune/WriteRune) modelled by Base/Utf8.v - validated by the stream, not proved",
         "uniseg grapheme segmentation: section oracle gseg with laws concat(gseg s)=s and clusters non-empty; GraphemeClusterCount, "
@@ -373,6 +692,9 @@ def run(ctx):
         "unicode.ToUpper/ToLower: section oracles (per-case tables dumped from the live package); strings.Map/ToUpper/ToLower, "
         "strings.Compare/CutSuffix/Repeat modelled from their documentation and source",
         "second oracle: Python re-implementation of Go's UTF-8 decoding in checks/C20.py",
+        "uniseg.FirstGraphemeClusterInString as step oracle gstep of Model/C20_Iter.v (law: a non-empty prefix is split off); the driver "
+        "instantiates it per case with the table of steps the harness records on the fresh run from (s, -1); that "
+        "GraphemeClusterCount/GraphemeAtInt iterate exactly these steps is read off the source and compared per case (glen, gats)",
     ]
     ctx.run_proof_gate()
     h = vlib.build_harness("c20")
@@ -457,3 +779,5 @@ def run(ctx):
     ctx.stream(stream, total, len(distinct), RULE, samples, dist,
                mismatches=mism, operations=ops, failing_keys=sorted(seen), batches=len(batches))
     elk_stream(ctx, m, elk_cases)
+    iter_cases = iter_stream(ctx, h, m)
+    iter_elk_stream(ctx, iter_cases)
